@@ -13,9 +13,24 @@ type Ctx struct {
 	facts    []string
 	nfresh   int
 	notes    []string // imprecision / unsupported notes
+	defCache map[string]defEntry
 }
 
-func newCtx() *Ctx { return &Ctx{declared: map[string]bool{}} }
+type defEntry struct {
+	t   Term
+	idx int
+}
+
+func newCtx() *Ctx { return &Ctx{declared: map[string]bool{}, defCache: map[string]defEntry{}} }
+
+// dropDefsAfter forgets cached definitions created after fresh-counter n (used when a discovery pass is rolled back).
+func (c *Ctx) dropDefsAfter(n int) {
+	for k, v := range c.defCache {
+		if v.idx > n {
+			delete(c.defCache, k)
+		}
+	}
+}
 
 func sanitize(s string) string {
 	var sb strings.Builder
@@ -69,8 +84,12 @@ func (c *Ctx) define(hint string, t Term) Term {
 	if len(t.S) < 24 {
 		return t
 	}
+	if d, ok := c.defCache[t.S]; ok {
+		return d.t
+	}
 	v := c.fresh(hint, t.Sort)
 	c.assume(Eq(v, t))
+	c.defCache[t.S] = defEntry{v, c.nfresh}
 	return v
 }
 
